@@ -26,6 +26,13 @@ type Obs struct {
 	Bad     string   `json:"bad"` // set when an accessor itself panicked
 }
 
+// maxWords: mantissas longer than this (5.7 million digits; the drivers' longest operands have 20 000) get special
+// treatment in Of. digitsPerWord is a lower bound on the digits of a full word (9 on 32-bit builds).
+const (
+	maxWords      = 300000
+	digitsPerWord = 9
+)
+
 // clamp31 maps values at or above 2^30 to the sentinel 2^30 (TLC integers are 32-bit; the model's MaxPrec).
 func clamp31(v uint64) int64 {
 	if v >= 1<<30 {
@@ -56,6 +63,20 @@ func Of(x *decimal.Decimal) (o Obs) {
 	o.Acc = int(x.Acc())
 	w, e := x.BitsExp()
 	o.Exp = e
+	if len(w) > maxWords {
+		// A mantissa this long cannot travel through the event log. Its low zero words carry no digit (the value is
+		// 0.mantissa x 10^exp) and are dropped; if what remains certainly has more digits than the precision allows,
+		// the value is malformed whatever its digits are (property C08) and is reported as such, with a few words.
+		lo := 0
+		for lo < len(w) && w[lo] == 0 {
+			lo++
+		}
+		w = w[lo:]
+		if len(w) > maxWords && uint64(len(w)-1)*digitsPerWord > uint64(x.Prec()) {
+			o.Bad = fmt.Sprintf("mantissa of %d non-zero-terminated words exceeds the precision %d", len(w), x.Prec())
+			w = append(append([]decimal.Word{}, w[:2]...), w[len(w)-2:]...)
+		}
+	}
 	for _, v := range w {
 		o.Words = append(o.Words, strconv.FormatUint(uint64(v), 10))
 	}
